@@ -106,6 +106,38 @@ theorem block_reference_hints_spec (g : Graph) (K : String) (ids : List Nat) (hs
   simp only [Hints.blockReferenceHints, hids, Except.ok.injEq] at h
   exact h.symm
 
+private theorem mem_dedupAdj : ∀ (l : List String) (x : String), x ∈ Hints.dedupAdj l ↔ x ∈ l
+  | [], _ => by simp [Hints.dedupAdj]
+  | [a], _ => by simp [Hints.dedupAdj]
+  | a :: b :: rest, x => by
+    have ih := mem_dedupAdj (b :: rest) x
+    simp only [Hints.dedupAdj]
+    split
+    · rename_i hab
+      have : a = b := by simpa using hab
+      subst this
+      rw [ih]
+      simp
+    · simp only [List.mem_cons] at ih ⊢
+      rw [ih]
+
+/-- **the `↖` hints name exactly the notes that include this one**: the labels are `↖` followed by the title of the
+note holding a live block reference to `K` — every such title appears, nothing else does (sorting and removing
+repetitions neither lose nor invent a title) -/
+theorem container_hints_exact (g : Graph) (K : String) (texts : List String) (hs : List Hints.Hint)
+    (ht : Hints.mapExcept (Hints.containerText g) (g.blockReferencesTo K) = .ok texts)
+    (h : Hints.containerHints g K = .ok hs) :
+    ∀ l, l ∈ hs.map (·.1) ↔ ∃ t ∈ texts, l = "↖" ++ t := by
+  simp only [Hints.containerHints, ht, Except.ok.injEq] at h
+  subst h
+  intro l
+  simp only [List.map_map, List.mem_map, Function.comp]
+  constructor
+  · rintro ⟨t, ht', rfl⟩
+    exact ⟨t, ((Graph.sortBy_perm _ texts).mem_iff).1 ((mem_dedupAdj _ t).1 ht'), rfl⟩
+  · rintro ⟨t, ht', rfl⟩
+    exact ⟨t, (mem_dedupAdj _ t).2 (((Graph.sortBy_perm _ texts).mem_iff).2 ht'), rfl⟩
+
 /-- the three groups come in a fixed order: containers (sorted, on line 0), the inline counter (line 0), then the
 block references in document order — nothing depends on the requested range -/
 theorem inlay_hints_order (g : Graph) (K : String) (cs bs : List Hints.Hint)
